@@ -191,7 +191,7 @@ def gen_config(rng, cid, dim=None, inner="any", outer="any", varying=None, stead
         "inner": gen_bc(rng, ik, bc_nt or nt, nz, times[0], times[-1], same_grid, const_in_time),
         "outer": gen_bc(rng, ok, bc_nt or nt, nz, times[0], times[-1], same_grid, const_in_time),
         "material": gen_material(rng, varying), "fluid": gen_fluid(rng, varying and rng.random() < 0.5),
-        "substep": substep or rng.choice([1, 1, 2, 3]), "steady": steady,
+        "substep": substep or rng.choice([1, 1, 2, 3]), "steady": steady, "via": rng.choice(["kwargs", "pset"]),
         "f": {"r": r, "t": t, "h": h, "times": times},
     }
     if dim <= 2:
